@@ -517,6 +517,26 @@ VARIANTS["C07"] = [
 
 # ------------------------------------------------------------------------------------------------ C05
 VARIANTS["C05"] = [
+    V("groups-split-unsorted-first-index", "fire", VO, [(
+        "        for c in np.unique(collection):\n            sel = collection == c\n            xout[sel, :] = car(x=x[sel, :], collection=None, operator=operator, **kwargs)\n",
+        "        order = np.argsort(collection, kind=\"stable\")\n        _, first = np.unique(collection, return_index=True)\n        for sel in np.split(order, first[1:]):\n            xout[sel, :] = car(x=x[sel, :], collection=None, operator=operator, **kwargs)\n")],
+      ("D1",), "group boundaries taken from the unsorted vector: interleaved shanks are mixed"),
+    V("groups-mask-by-index", "fire", VO, [(
+        "        for c in np.unique(collection):\n            sel = collection == c\n            xout[sel, :] = car(x=x[sel, :], collection=None, operator=operator, **kwargs)\n",
+        "        for c in np.unique(collection):\n            sel = collection >= c\n            xout[sel, :] = car(x=x[sel, :], collection=None, operator=operator, **kwargs)\n")],
+      ("D1",), ""),
+    V("twin-groups-split-sorted", "twin", VO, [(
+        "        for c in np.unique(collection):\n            sel = collection == c\n            xout[sel, :] = car(x=x[sel, :], collection=None, operator=operator, **kwargs)\n",
+        "        order = np.argsort(collection, kind=\"stable\")\n        _, first = np.unique(collection[order], return_index=True)\n        for sel in np.split(order, first[1:]):\n            xout[sel, :] = car(x=x[sel, :], collection=None, operator=operator, **kwargs)\n")],
+      (), "argsort + split at the group starts of the sorted vector"),
+    V("twin-groups-split-counts", "twin", VO, [(
+        "        for c in np.unique(collection):\n            sel = collection == c\n            xout[sel, :] = car(x=x[sel, :], collection=None, operator=operator, **kwargs)\n",
+        "        order = np.argsort(collection, kind=\"stable\")\n        _, counts = np.unique(collection, return_counts=True)\n        for sel in np.split(order, np.cumsum(counts)[:-1]):\n            xout[sel, :] = car(x=x[sel, :], collection=None, operator=operator, **kwargs)\n")],
+      (), "cut points from cumulative counts"),
+    V("twin-groups-flatnonzero", "twin", VO, [(
+        "        for c in np.unique(collection):\n            sel = collection == c\n            xout[sel, :] = car(x=x[sel, :], collection=None, operator=operator, **kwargs)\n",
+        "        for c in np.unique(collection):\n            sel = np.flatnonzero(collection == c)\n            xout[sel, :] = car(x=x[sel, :], collection=None, operator=operator, **kwargs)\n")],
+      (), ""),
     V("car-operator-dropped", "fire", VO, [("car(x=x[sel, :], collection=None, operator=operator, **kwargs)", "car(x=x[sel, :], collection=None, **kwargs)")], ("D1",), "regression of F5"),
     V("kfilt-lagc-dropped", "fire", VO, [("                collection=None,\n                lagc=lagc,\n                butter_kwargs=butter_kwargs,\n", "                collection=None,\n                butter_kwargs=butter_kwargs,\n")], ("D1",), "regression of F5"),
     V("fk-btype-dropped", "fire", VO, [("                ntr_pad=ntr_pad,\n                btype=btype,\n", "                ntr_pad=ntr_pad,\n")], ("D1",), "regression of F5"),
